@@ -73,7 +73,8 @@ CHECKS["C04"] = {
     "budget": {"quick": 40, "thorough": 300},
     "rule": GEN_RULE + "; fixed-size definitions only; size, alignment and every member offset (recursively) are "
                        "compared with an independent layout model and, on the mappable subset, with ctypes "
-                       "(the host C ABI); len(T), sizeof(T) inside an expression, bytes consumed and bytes dumped "
+                       "(the host C ABI) and with a real C compiler (the same declarations are compiled with cc, "
+                       "incl. __int128 and __attribute__((packed)), and sizeof/_Alignof/offsetof are printed); len(T), sizeof(T) inside an expression, bytes consumed and bytes dumped "
                        "must agree",
     "anchors": ["types/structure.py", "cstruct.py", "expression.py"],
     "required_reach": ["types/structure.py:StructureMetaType._calculate_size_and_offsets",
@@ -586,13 +587,14 @@ MANIFEST_TEXT = {
     "C04": {
         "text": "Runtime observation of the real type objects built from generated fixed-size definitions in packed and "
                 "aligned mode and all pointer widths: size, alignment and member offsets are compared with an "
-                "independent layout model and with ctypes.Structure/Union (host C ABI) on the mappable subset, and "
+                "independent layout model, with ctypes.Structure/Union (host C ABI) and with the output of a real C "
+                "compiler for the same declarations on the mappable subset, and "
                 "the four size observations (len, sizeof in an expression, bytes consumed, bytes dumped) are taken "
                 "from real executions. Held-on-observed.",
         "design_ref": "DESIGN.md 4 C04",
         "note": "ctypes covers 8-64 bit ints, floats, char, wchar, enums, pointers, arrays, nested structs/unions; "
                 "int24/48/128 and bit-field cases are judged by the model only",
-        "technique": "generated definitions checked against ctypes (C ABI oracle) and a layout model",
+        "technique": "generated definitions checked against a C compiler, ctypes (C ABI oracles) and a layout model",
     },
     "C01": {
         "text": "Runtime monitoring of the real dump->parse round trip over generated definitions x values (parsed "
